@@ -15,6 +15,10 @@ let table = [coq_of_string user_s]
 
 (* adm: the admin token of the case - the configured value when the case names one ("@<value>"), else symbolic *)
 let subst adm t =
+  (* ${fn:T}: a value derived from the credential T - symbolic: a distinct value without spaces that is neither the
+     admin token nor in the table (the harness skips derivations that reproduce the credential itself) *)
+  let t = Str.global_substitute (Str.regexp "\\${\\([a-z0-9]+\\):\\([AU]\\)}")
+      (fun s -> "DERIVED-" ^ Str.matched_group 1 s ^ "-OF-" ^ Str.matched_group 2 s) t in
   Stdlib.List.fold_left (fun acc (p, v) ->
       Str.global_substitute (Str.regexp_string p) (fun _ -> v) acc)
     t ["$A", adm; "$U", user_s; "$R", revoked_s; "$X", unknown_s]
@@ -67,6 +71,10 @@ let parse (input : string) : case option =
                 | None -> None
                 | Some hdr -> Some { auth; prof; met; fail; over; admin = coq_of_string adm; meth; path; hdr }))))
 
+let is_raw m = Stdlib.String.length m > 4 && Stdlib.String.sub m 0 4 = "RAW."
+let raw_method m = match Stdlib.String.index_opt m ':' with
+  | Some i -> Stdlib.String.sub m (i + 1) (Stdlib.String.length m - i - 1) | None -> m
+
 let err_s = function
   | Auth.ErrMissingAuthHeader -> "ErrMissingAuthHeader"
   | Auth.ErrInvalidAuthHeader -> "ErrInvalidAuthHeader"
@@ -83,6 +91,12 @@ let model input =
   match parse input with
   | None -> "BAD-INPUT"
   | Some c when c.meth = "SETUP" -> "SETUP-OK"   (* every fixture step succeeds on a correct implementation *)
+  | Some c when is_raw c.meth ->
+    (* non-canonical spelling of the route's path: the model has no opinion on routing (404 / 301 / 307 / 400 / 401 are
+       all fine); a request whose credential is not accepted never gets a 2xx and never changes a table *)
+    let c = { c with meth = raw_method c.meth } in
+    if Auth.spec_reaches c.auth c.admin table (route c) (coq_of_string c.hdr) then "UNPREDICTED-accepted-credential"
+    else "refused unchanged"
   | Some c ->
     let admin = c.admin in
     let r = route c in
@@ -104,6 +118,14 @@ let spec input obs =
   | None -> "FAIL malformed-input"
   | Some c when c.meth = "SETUP" ->
     if obs = "SETUP-OK" then "OK" else "FAIL fixture-step-failed " ^ obs
+  | Some c when is_raw c.meth ->
+    let c' = { c with meth = raw_method c.meth } in
+    if Auth.spec_reaches c'.auth c'.admin table (route c') (coq_of_string c'.hdr) then "FAIL malformed-input spelling case with an accepted credential"
+    else (match words obs with
+        | ["refused"; "unchanged"] -> "OK"
+        | [_; ch] when ch <> "unchanged" -> "FAIL state-changed-on-rejected-request " ^ ch ^ " (non-canonical path)"
+        | ["2xx"; _] -> "FAIL unauthenticated-2xx-on-noncanonical-path"
+        | _ -> "FAIL malformed-observable " ^ obs)
   | Some c ->
     let admin = c.admin in
     let r = route c in
